@@ -619,6 +619,17 @@ class Session(AbstractSession):
             separator = np.frombuffer(b',', dtype='S1')[0][0]
             delimiter = np.frombuffer(b'"', dtype='S1')[0][0]
 
+        # _apply_spans_concat_2 writes a whole span without checking the room left and only ends a batch once
+        # max_value_i bytes are used, so half of the value buffer must hold the longest possible span output
+        # (every byte doubled, two quotes and one separator per entry); grow the buffer when it does not
+        if len(spans) > 1:
+            span_starts = np.asarray(spans[:-1])
+            span_ends = np.asarray(spans[1:])
+            longest = int(np.max(2 * (src_index[span_ends] - src_index[span_starts]) + 3 * (span_ends - span_starts)))
+            if 2 * longest > len(dest_values):
+                dest_values = np.zeros(2 * longest, src_values.dtype)
+                max_value_i = longest
+
         s = 0
         index_v = 0
         dest_start_v = 0
